@@ -432,7 +432,7 @@ diff_sds_attrs(int32 sds1_id, int32 nattrs1, int32 sds2_id, int32 nattrs2, char 
 
     if (nattrs1 != nattrs2) {
         printf("Different number of attributes\n");
-        return 0;
+        return 1;
     }
 
     /* loop through attributes */
@@ -449,6 +449,7 @@ diff_sds_attrs(int32 sds1_id, int32 nattrs1, int32 sds2_id, int32 nattrs2, char 
 
         if (dtype1 != dtype2 || nelms1 != nelms2 || (strcmp(attr1_name, attr2_name) != 0)) {
             printf("Different information for attribute <%d>\n", i);
+            nfound++;
             continue;
         }
 
